@@ -20,11 +20,13 @@ import (
 
 	ipfslog "berty.tech/go-ipfs-log"
 	"berty.tech/go-ipfs-log/accesscontroller"
+	"berty.tech/go-ipfs-log/enc"
 	"berty.tech/go-ipfs-log/entry"
 	"berty.tech/go-ipfs-log/entry/sorting"
 	"berty.tech/go-ipfs-log/errmsg"
 	idp "berty.tech/go-ipfs-log/identityprovider"
 	"berty.tech/go-ipfs-log/iface"
+	"berty.tech/go-ipfs-log/io/cbor"
 )
 
 // ---------------------------------------------------------------------------------------------
@@ -54,6 +56,7 @@ type hop struct {
 	Iter    *iterSpec `json:"iter,omitempty"`
 	Pin     bool      `json:"pin,omitempty"`   // append: ask for the entry block to be pinned
 	Fault   bool      `json:"fault,omitempty"` // append/publish: the store refuses every block write during this operation
+	Keyed   bool      `json:"keyed,omitempty"` // new: the log uses the link-encrypting cbor codec (one key per history)
 	Clock   int       `json:"clock,omitempty"` // new: time of the clock handed to NewLog (LogOptions.Clock); 0 = none
 	Stall   string    `json:"stall,omitempty"` // append: "ctx" = the store is stuck and the caller's 50 ms deadline fires during the block write (must fail like a refused write); "slow" = the block write takes 2.5 s (must succeed, and only return once the block is stored)
 }
@@ -94,6 +97,44 @@ type world struct {
 	reps    []*replica
 	created []iface.IPFSLogEntry // successful appends, in order
 	unknown cid.Cid
+	keyedIO iface.IO // set once a replica of this world uses sealed links
+}
+
+// sealedIO: the link-encrypting codec shared by the keyed replicas of this world
+func (w *world) sealedIO() iface.IO {
+	if w.keyedIO == nil {
+		key, err := enc.NewSecretbox([]byte("0123456789abcdef0123456789abcdef"))
+		if err != nil {
+			panic(err)
+		}
+		dio, err := cbor.IO(&entry.Entry{}, &entry.LamportClock{})
+		if err != nil {
+			panic(err)
+		}
+		w.keyedIO = dio.ApplyOptions(&cbor.Options{LinkKey: key})
+	}
+	return w.keyedIO
+}
+
+// linksOf: the CIDs a stored block links to; for an entry written with sealed links, the links its
+// holder of the key reads (predecessors, then references) - what the store model records
+func (w *world) linksOf(c cid.Cid) []string {
+	out := linksOfBlock(c, w.dag.raw(c))
+	if len(out) > 0 || w.keyedIO == nil {
+		return out
+	}
+	node, err := w.keyedIO.Read(context.Background(), w.api, c)
+	if err != nil || node == nil {
+		return out
+	}
+	e, err := w.keyedIO.DecodeRawEntry(node, c, w.idents["A"].Provider)
+	if err != nil || e == nil {
+		return out
+	}
+	for _, l := range append(append([]cid.Cid{}, e.GetNext()...), e.GetRefs()...) {
+		out = append(out, l.String())
+	}
+	return out
 }
 
 var identNames = []string{"A", "B", "C", "D", "E", "F"}
@@ -463,6 +504,9 @@ func (h *histRun) exec() {
 					ac = &denyAC{denied: denied}
 				}
 				lopts := &ipfslog.LogOptions{ID: o.LogID, SortFn: sortFnOf(o.Sort), AccessController: ac}
+				if o.Keyed {
+					lopts.IO = w.sealedIO()
+				}
 				if o.Clock != 0 {
 					lopts.Clock = entry.NewLamportClock(w.idents[o.Ident].PublicKey, o.Clock)
 				}
@@ -627,7 +671,7 @@ func (h *histRun) exec() {
 		}
 		// blocks written by this op (C17) + closure monitor
 		for _, c := range w.dag.order[storeBefore:] {
-			links := linksOfBlock(c, w.dag.raw(c))
+			links := w.linksOf(c)
 			ob.Store = append(ob.Store, blockRaw{Cid: c.String(), Links: links})
 		}
 		if n := len(w.dag.writes); n > 0 {
@@ -748,7 +792,7 @@ func (h *histRun) monitorStore(opIdx, from int) {
 		present[c.String()] = true
 	}
 	for _, c := range w.dag.order[from:] {
-		for _, l := range linksOfBlock(c, w.dag.raw(c)) {
+		for _, l := range w.linksOf(c) {
 			if !present[l] {
 				h.fail("C17", "store-closed", "C17:dangling-link", "block "+c.String()+" written before its link "+l, opIdx)
 			}
